@@ -1,4 +1,5 @@
 import PPProofs.Lemmas.Threads
+import PPProofs.Lemmas.ThreadsLocks
 /-!
 # C15 — concurrent parsing equals serial parsing
 
@@ -11,7 +12,12 @@ that are correct for their own key.
 Full statement of the property (properties.jsonl C15): for modes off, packrat AND left-recursion each call
 returns what it returns alone, nothing crashes, nothing deadlocks. Proved at full strength for modes off and
 packrat (`packrat_atomic`, `cache_entries_correct`, `concurrent_eq_serial`, `no_internal_error`,
-`no_deadlock`). For left-recursion mode the statement is FALSE of the current code: `lr_race_witness`,
+`no_deadlock`); since `Act.entry` these cover NESTED entry-point calls (`parse_string` / `scan_string` / `search_string` /
+`transform_string` called from a parse action or condition: a second `reset_cache()` + parse on top of the running
+parse). Deadlock-freedom over BOTH class-level locks and all modes (left-recursion mode included, where a nested
+entry call takes `packrat_cache_lock` while `recursion_lock` is held) is `Locks.lock_order_no_deadlock` (any
+programs whose acquisitions respect one global order) instantiated with the order of the unchanged code
+(`Locks.nested_entry_no_deadlock`: `recursion_lock` before `packrat_cache_lock`). For left-recursion mode the statement is FALSE of the current code: `lr_race_witness`,
 `lr_reset_race_witness` (concrete schedules, `by decide`), replayed on the real code by the harness.
 -/
 namespace PP.Threads
@@ -212,6 +218,144 @@ example : (stepsOf s0 ([0,0,0,0, 1,1,1,1] ++ List.replicate 18 0)).map
     (fun s => ((s.thr 0).pc, s.sh.pOwner, s.sh.pCount, touching (s.thr 0).pc, finished (s.thr 1).pc)) =
     some (.pick 7, some 0, 2, true, false) := by decide +kernel
 end Ex
+
+/-! non-vacuity for NESTED entry calls: the action of the cached element `kA` calls `sub.parse_string(..)`
+    (`.entry kE`: `reset_cache()` + the nested driver `kE`, which parses the cached element `kW` of the shared
+    sub-grammar) -/
+namespace Nest
+def kD : Key := ⟨9, 0, 0, 0⟩   -- top-level driver
+def kA : Key := ⟨1, 0, 0, 3⟩   -- element with the re-parsing action
+def kE : Key := ⟨0, 1, 5, 4⟩   -- nested driver (parse_string of the sub-grammar on the field's text)
+def kW : Key := ⟨2, 1, 0, 3⟩   -- sub-grammar element
+def g : Grammar where
+  body k rs :=
+    if k = kD then (if rs.length = 0 then .call kA else .ret 5)
+    else if k = kA then (if rs.length = 0 then .entry kE else .ret 5)
+    else if k = kE then (if rs.length = 0 then .call kW else .ret 8)
+    else .ret 6
+  cached k := k = kA ∨ k = kW
+def s0 : State := ⟨{ size := some 1 }, fun _ => Thread.init kD⟩
+
+theorem init : Init g (fun _ => kD) s0 :=
+  ⟨fun _ => rfl, rfl, rfl, fun p hp => by simp [s0] at hp⟩
+
+def stepsOf : State → List Tid → Option State
+  | s, [] => some s
+  | s, t :: r => match step g s t with | some s' => stepsOf s' r | none => none
+
+/-- thread 0 is inside the nested `reset_cache()` of its action (lock count 2: `_parseCache` + `reset_cache`),
+    at a `touching` point; thread 1 has reset and waits for the lock at its first cached call -/
+example : (stepsOf s0 (List.replicate 6 1 ++ List.replicate 11 0)).map
+    (fun s => ((s.thr 0).pc, s.sh.pOwner, s.sh.pCount, touching (s.thr 0).pc, (step g s 1).isSome)) =
+    some (.rMemo, some 0, 2, true, false) := by decide +kernel
+
+/-- both threads run to completion (thread 1 is served thread 0's surviving entry) with the serial answer 5 -/
+example : (stepsOf s0 (List.replicate 6 1 ++ List.replicate 11 0 ++ List.replicate 23 0 ++
+    List.replicate 6 1)).map (fun s => ((s.thr 0).pc, (s.thr 1).pc, s.sh.cache)) =
+    some (.done 5, .done 5, [(kA, 5)]) := by decide +kernel
+end Nest
+
+/-! ## both locks, all three modes, nested entry calls: one global acquisition order ⇒ no deadlock
+
+Model: Part 5 of `PPModel/Mod/Threads.lean` (`Locks`): a thread = the list of its lock operations on
+`recursion_lock` (R) / `packrat_cache_lock` (P), both re-entrant; any number of threads, all schedules. -/
+namespace Locks
+
+/-- **lock_order_no_deadlock**: if every thread acquires a lock it does not already hold only while all locks it
+    holds rank strictly below it (for ONE ranking `rank` shared by all threads), releases only what it holds and
+    ends holding nothing, then under every schedule, in every reachable state in which some thread has not finished,
+    some thread can step. -/
+theorem lock_order_no_deadlock {rank : Lock → Nat} {prog : Tid → List Op} {s : LState}
+    (h0 : ∀ t, ordered rank Held.zero (prog t) = true) (r : LReach (linit prog) s)
+    (hu : ∃ t, s.prog t ≠ []) : ∃ t, (lstep s t).isSome = true :=
+  no_stuck_state (lreach_inv r (linit_inv h0)) hu
+
+/-- modes off / packrat: whatever the nesting of `_parseCache` calls and nested entry calls, only P is ever taken,
+    so the program is ordered for every ranking -/
+theorem packrat_nested_ordered {rank : Lock → Nat} {p : List Op} (hp : PackratProg p) :
+    ordered rank Held.zero p = true := by
+  have := packrat_ordered (rank := rank) hp Held.zero [] rfl (by simp [ordered, Held.zero])
+  simpa using this
+
+/-- left-recursion mode: whatever the nesting of `Forward.parseImpl` calls and nested entry calls, the program
+    is ordered for `codeRank` (R before P) -/
+theorem lr_nested_ordered {p : List Op} (hp : LRProg p) : ordered codeRank Held.zero p = true := by
+  have := lr_ordered hp Held.zero [] rfl (by simp [ordered, Held.zero])
+  simpa using this
+
+/-- **nested_entry_no_deadlock**: threads that each run an entry point (`reset_cache()` then the parse) whose parse
+    actions make nested entry calls to any depth never deadlock — in modes off/packrat and in left-recursion mode
+    (the memoisation mode is process-global, so all threads are in the same one). -/
+theorem nested_entry_no_deadlock {prog : Tid → List Op} {s : LState}
+    (hp : (∀ t, PackratProg (prog t)) ∨ (∀ t, LRProg (prog t))) (r : LReach (linit prog) s)
+    (hu : ∃ t, s.prog t ≠ []) : ∃ t, (lstep s t).isSome = true := by
+  rcases hp with hp | hp
+  · exact lock_order_no_deadlock (rank := codeRank) (fun t => packrat_nested_ordered (hp t)) r hu
+  · exact lock_order_no_deadlock (rank := codeRank) (fun t => lr_nested_ordered (hp t)) r hu
+
+namespace Ex
+open Op Lock
+
+/-- packrat: `record.parse_string(..)` whose action calls `numbers.parse_string(..)` (selftest C15-4 demo):
+    reset; _parseCache(record){ cget; action: reset; _parseCache(numbers){cget; cput}; cput } -/
+def recordProg : List Op :=
+  reset ++ [acq P, tau, acq P, tau, tau, rel P, acq P, tau, tau, rel P, tau, rel P]
+/-- the other thread: `numbers.parse_string(..)` -/
+def numbersProg : List Op := reset ++ [acq P, tau, tau, rel P]
+
+theorem recordProg_shape : PackratProg recordProg :=
+  .entry (.cached (a := [tau, acq P, tau, tau, rel P, acq P, tau, tau, rel P, tau]) (b := [])
+    (.tau (.entry (.cached (a := [tau, tau]) (b := [tau]) (.tau (.tau .nil)) (.tau .nil)))) .nil)
+theorem numbersProg_shape : PackratProg numbersProg :=
+  .entry (.cached (a := [tau, tau]) (b := []) (.tau (.tau .nil)) .nil)
+
+/-- left-recursion mode: Forward{ action: reset; Forward{..} } -/
+def lrProg : List Op := reset ++ [acq R, tau, acq P, tau, tau, rel P, acq R, tau, rel R, tau, rel R]
+theorem lrProg_shape : LRProg lrProg :=
+  .entry (.forward (a := [tau, acq P, tau, tau, rel P, acq R, tau, rel R, tau]) (b := [])
+    (.tau (.entry (.forward (a := [tau]) (b := [tau]) (.tau .nil) (.tau .nil)))) .nil)
+
+/-- the hypotheses are satisfiable, and a state with a thread blocked and another one running is reachable -/
+example : (lrun (linit (progOf [recordProg, numbersProg])) [0, 0, 0, 0, 0, 0, 0]).map
+    (fun s => ((lstep s 0).isSome, (lstep s 1).isSome, s.owner P, s.count P)) =
+    some (true, false, some 0, 2) := by decide
+
+/-- The order hypothesis cannot be dropped. Shape of selftest change C15-4 (`parse_string` wraps its `reset_cache()`
+    in `with recursion_lock:`): the entry takes R then P, a packrat parse holds P around a nested entry. No ranking
+    orders this program ... -/
+def entry4 : List Op := [acq R] ++ reset ++ [rel R]
+def recordProg4 : List Op := entry4 ++ [acq P, tau] ++ entry4 ++ [acq P, tau, tau, rel P, tau, rel P]
+def numbersProg4 : List Op := entry4 ++ [acq P, tau, tau, rel P]
+
+theorem two_orders_unorderable (rank : Lock → Nat) : ordered rank Held.zero recordProg4 = false := by
+  cases h : ordered rank Held.zero recordProg4 with
+  | false => rfl
+  | true =>
+    simp [recordProg4, entry4, reset, ordered, lowerHeld, Held.zero, Held.inc, Held.dec] at h
+    omega
+
+/-- ... and two threads reach a state in which neither has finished and neither can step: thread 0 is inside its
+    packrat parse (holds P) and waits for R in the nested entry, thread 1 holds R in its entry and waits for P. -/
+theorem two_orders_deadlock : ∃ s, LReach (linit (progOf [recordProg4, numbersProg4])) s ∧
+    (∃ t, s.prog t ≠ []) ∧ ∀ t, lstep s t = none := by
+  cases h : lrun (linit (progOf [recordProg4, numbersProg4])) [0, 0, 0, 0, 0, 0, 0, 0, 1] with
+  | none => exact absurd h (by decide)
+  | some s =>
+    have hf : (lrun (linit (progOf [recordProg4, numbersProg4])) [0, 0, 0, 0, 0, 0, 0, 0, 1]).map
+        (fun s => ((lstep s 0).isNone, (lstep s 1).isNone, (s.prog 0).isEmpty)) = some (true, true, false) := by
+      decide
+    rw [h] at hf
+    simp only [Option.map_some, Option.some.injEq, Prod.mk.injEq] at hf
+    refine ⟨s, lrun_reach _ _ _ _ (.refl _) h, ⟨0, fun e => by simp [e] at hf⟩, fun t => ?_⟩
+    match t with
+    | 0 => simpa using hf.1
+    | 1 => simpa using hf.2.1
+    | t + 2 =>
+      have : s.prog (t + 2) = [] := lrun_prog_nil _ _ _ h (t + 2) (by simp [linit, progOf])
+      simp [lstep, this]
+end Ex
+
+end Locks
 
 /-! ## left-recursion mode: the property is FALSE of the current code (finding `lr_mode_shared_memo`) -/
 
